@@ -1,7 +1,7 @@
 #!/bin/sh
 # usage: tools_round3.sh <agent dir under /tmp/sa> <check id>...  - confirm an agent's seed and run the quick checks against it
 T=$1; shift
-D=/tmp/sa/$T/_seed
+D=${SA:-/tmp/sa}/$T/_seed
 echo "##### $T"
 /verif/tools_confirm.sh $D 2>&1 | grep -E "^--|passed|failed|PASS|FAIL|exit=" | cut -c1-160
 for c in "$@"; do
